@@ -38,7 +38,7 @@ func displayCall(v ssa.Value) (fset, pos ssa.Value, ok bool) {
 		if len(r.Results) != 1 {
 			return nil, nil, false
 		}
-		inner, isInner := r.Results[0].(*ssa.Call)
+		inner, isInner := ReturnOperand(r, 0).(*ssa.Call)
 		if !isInner || !IsCallTo(inner, disp) {
 			return nil, nil, false
 		}
